@@ -287,11 +287,15 @@ class UnionMatcher(AdditiveBiMatcher):
         aq = a.block_quality()
         bq = b.block_quality()
         while a.is_active() and b.is_active() and aq + bq < minquality:
+            # A block of one sub-matcher can only be passed over if none of its
+            # postings can reach the threshold even with the best posting of
+            # the other sub-matcher (the other matcher's *current* block does
+            # not cover every document of this block)
             if aq < bq:
-                sk = a.skip_to_quality(minquality - bq)
+                sk = a.skip_to_quality(minquality - b.max_quality())
                 aq = a.block_quality()
             else:
-                sk = b.skip_to_quality(minquality - aq)
+                sk = b.skip_to_quality(minquality - a.max_quality())
                 bq = b.block_quality()
             skipped += sk
             if not sk:
@@ -532,7 +536,9 @@ class IntersectionMatcher(AdditiveBiMatcher):
                 # If the block quality of A is less than B, skip A ahead until
                 # it can contribute at least the balance of the required min
                 # quality when added to B
-                sk = a.skip_to_quality(minquality - bq)
+                # (only the other matcher's overall maximum bounds every
+                # document of the skipped blocks)
+                sk = a.skip_to_quality(minquality - b.max_quality())
                 skipped += sk
                 if not sk and a.is_active():
                     # The matcher couldn't skip ahead for some reason, so just
@@ -540,7 +546,7 @@ class IntersectionMatcher(AdditiveBiMatcher):
                     a.next()
             else:
                 # And vice-versa
-                sk = b.skip_to_quality(minquality - aq)
+                sk = b.skip_to_quality(minquality - a.max_quality())
                 skipped += sk
                 if not sk and b.is_active():
                     b.next()
@@ -788,11 +794,15 @@ class AndMaybeMatcher(AdditiveBiMatcher):
         aq = a.block_quality()
         bq = b.block_quality()
         while a.is_active() and b.is_active() and aq + bq < minquality:
+            # A block of one sub-matcher can only be passed over if none of its
+            # postings can reach the threshold even with the best posting of
+            # the other sub-matcher (the other matcher's *current* block does
+            # not cover every document of this block)
             if aq < bq:
-                sk = a.skip_to_quality(minquality - bq)
+                sk = a.skip_to_quality(minquality - b.max_quality())
                 aq = a.block_quality()
             else:
-                sk = b.skip_to_quality(minquality - aq)
+                sk = b.skip_to_quality(minquality - a.max_quality())
                 bq = b.block_quality()
             skipped += sk
             if not sk:
